@@ -87,12 +87,17 @@ Proof.
     + cbn [fst snd]. subst x. ring.
     + apply IH.
 Qed.
+(* inverse_consistency_loss (traced with a stand-in grid of size (5, 7, 9), symbolic spacing and a symbolic
+   cube-unit error e at every point): the reported value is the Euclidean norm of the error converted with
+   the GRID's align_corners flag, for every unit *)
+Definition sq_sum (l : list K) : K := vsum (map (fun a => a * a) l).
+Lemma ic_units_ok (s0 s1 s2 e0 e1 e2 : K) :
+  let n := [5; 7; 9]%Z in let s := [s0; s1; s2] in let e := [e0; e1; e2] in
+  gen_ic_sq_cube_ac s0 s1 s2 e0 e1 e2 = sq_sum (ic_convert_spec UCube true n s e) /\
+  gen_ic_sq_voxel_ac s0 s1 s2 e0 e1 e2 = sq_sum (ic_convert_spec UVoxel true n s e) /\
+  gen_ic_sq_world_ac s0 s1 s2 e0 e1 e2 = sq_sum (ic_convert_spec UWorld true n s e) /\
+  gen_ic_sq_cube_nac s0 s1 s2 e0 e1 e2 = sq_sum (ic_convert_spec UCube false n s e) /\
+  gen_ic_sq_voxel_nac s0 s1 s2 e0 e1 e2 = sq_sum (ic_convert_spec UVoxel false n s e) /\
+  gen_ic_sq_world_nac s0 s1 s2 e0 e1 e2 = sq_sum (ic_convert_spec UWorld false n s e).
+Proof. repeat split; fcbv; field; nz. Qed.
 End G.
-
-(* ... but its default is align_corners=True: used without the grid's flag it reports (n-1)/2 per cube
-   unit on a grid whose voxels are 2/n wide *)
-Lemma denormalize_default_refuted :
-  gen_denormalize_default_is_ac = true /\
-  exists e : list QcF,
-    vclose 0 (gen_denormalize_ac e) (ic_convert_spec UVoxel false [5; 7; 9]%Z [] e) = false.
-Proof. split; [reflexivity|]. exists [q 1 1; q 0 1; q 0 1]. vm_compute. reflexivity. Qed.
